@@ -196,7 +196,8 @@ type Rec struct {
 	replaying bool
 
 	// watchdog
-	caseStart atomic.Int64
+	caseStart atomic.Int64 // 0 = no case open, otherwise the sequence number of the open case
+	caseSeq   atomic.Int64
 	caseDesc  atomic.Value // func() interface{}
 	caseCheck atomic.Value // string
 	budget    time.Duration
@@ -440,19 +441,27 @@ func (r *Rec) Rapid(check string, n int, prop func(rt *rapid.T)) {
 func (r *Rec) Begin(check string, desc func() interface{}) {
 	r.caseCheck.Store(check)
 	r.caseDesc.Store(desc)
-	r.caseStart.Store(time.Now().UnixNano())
+	r.caseStart.Store(r.caseSeq.Add(1))
 }
 
 func (r *Rec) End() { r.caseStart.Store(0) }
 
 func (r *Rec) watch() {
+	// Elapsed time is counted in wake-ups of this loop during which the same case stayed open,
+	// not read from a clock: a stepped wall clock or a paused virtual machine must not look like
+	// a case that hangs (a starved process is only judged more leniently).
+	const tick = 500 * time.Millisecond
+	var last int64
+	var ticks int
 	for {
-		time.Sleep(500 * time.Millisecond)
+		time.Sleep(tick)
 		st := r.caseStart.Load()
-		if st == 0 {
+		if st == 0 || st != last {
+			last, ticks = st, 0
 			continue
 		}
-		if time.Since(time.Unix(0, st)) > r.budget {
+		ticks++
+		if time.Duration(ticks)*tick > r.budget {
 			// re-check it is the same case
 			if r.caseStart.Load() != st {
 				continue
